@@ -579,11 +579,15 @@ class ThreadPoolExecutor:
     self._shutdown = False
     self.name = _auto('X')
 
-  def _worker(self):
+  def _worker(self, first=None):
+    task = first
     while True:
-      if not self._tasks:
-        return
-      fut, fn, args, kwargs = self._tasks.popleft()
+      if task is None:
+        if not self._tasks:
+          return
+        task = self._tasks.popleft()
+      fut, fn, args, kwargs = task
+      task = None
       try:
         fut.set_result(fn(*args, **kwargs))
       except Aborted:
@@ -591,15 +595,24 @@ class ThreadPoolExecutor:
       except BaseException as e:  # pylint: disable=broad-exception-caught
         fut.set_exception(e)
 
+  def _wname(self, k):
+    # a prefix ending in '#' names the workers prefix1, prefix2, ... (spec process ids)
+    if self._prefix.endswith('#'):
+      return f'{self._prefix[:-1]}{k}'
+    return f'{self._prefix}-w{k}'
+
   def submit(self, fn, *args, **kwargs):
     if self._shutdown:
       raise RuntimeError('cannot schedule new futures after shutdown')
     s = _ACTIVE[0]
     fut = Future()
-    self._tasks.append((fut, fn, args, kwargs))
+    task = (fut, fn, args, kwargs)
     live = [w for w in self._workers if not w.finished]
     if len(live) < self._max:
-      self._workers.append(s.spawn(f'{self._prefix}-w{len(self._workers) + 1}', self._worker))
+      # the new worker is bound to this task (worker k runs the k-th submitted task first)
+      self._workers.append(s.spawn(self._wname(len(self._workers) + 1), lambda t=task: self._worker(t)))
+    else:
+      self._tasks.append(task)
     return fut
 
   def shutdown(self, wait=True, cancel_futures=False):
